@@ -108,3 +108,40 @@ Lemma ex_history_abs :
   abs s8 (IP4 3232235522) = None /\
   find_mac ex_mac1 (macs s8) = None.
 Proof. cbv zeta. repeat split; vm_compute; reflexivity. Qed.
+
+(* ------------------------------------------------------------------ *)
+(* the three deadlines.  Every theorem above is for an arbitrary [cfg]: no ordering between OfflineDeadline,
+   PurgeDeadline and ProbeDeadline is assumed anywhere (NewSession enforces only Probe <= Offline).  The
+   reference is the property text: offline after OfflineDeadline of silence, removed when offline and silent
+   longer than PurgeDeadline.  ProbeDeadline is read by no step of the model and of the reference: *)
+Theorem probe_independent_proof p c s o : step (set_probe p c) s o = step c s o.
+Proof. destruct c; destruct o; reflexivity. Qed.
+
+Theorem probe_independent_ref_proof p c a o k : ref_step (set_probe p c) a o k = ref_step c a o k.
+Proof. destruct c; destruct o; reflexivity. Qed.
+
+(* PurgeDeadline < ProbeDeadline <= OfflineDeadline (legal): a MAC seen on .1 at t=10 and on .2 at t=20; .1 is offline
+   by supersession with a fresh last-seen time.  A purge at t=75 is past .1's purge deadline (10+60) but not past the
+   probe deadline (10+120): .1 is removed, in the reference and in the model; at t=70 it is still tracked. *)
+Definition dl_cfg : cfg :=
+  {| own_mac := own_mac std_cfg; own_ip4 := own_ip4 std_cfg; own_lla := own_lla std_cfg; rt_mac := rt_mac std_cfg;
+     rt_ip4 := rt_ip4 std_cfg; lan_base := lan_base std_cfg; lan_bits := lan_bits std_cfg;
+     offline_dl := 300; purge_dl := 60; probe_dl := 120 |}.
+Definition dl_s0 : state := match new_session dl_cfg 0 with Ok s => s | _ => empty_state end.
+Definition dl_history (t : Z) : list op :=
+  [ ex_rx4 ex_mac1 3232235521 10; ex_rx4 ex_mac1 3232235522 20;
+    Purge t [IP4 3232235521; IP4 3232235522; IP4 3232235531; IP4 3232235649] ].
+
+Lemma purge_below_probe_example :
+  new_session dl_cfg 0 = Ok dl_s0 /\
+  hist_wfb dl_cfg dl_s0 (dl_history 75) = true /\
+  (* before the purge: .1 offline (superseded), last seen 10; .2 online *)
+  option_map (fun e => (a_online e, a_last e)) (abs (run dl_cfg dl_s0 (firstn 2 (dl_history 75))) (IP4 3232235521)) = Some (false, 10%Z) /\
+  abs (run dl_cfg dl_s0 (dl_history 70)) (IP4 3232235521) <> None /\
+  abs (run dl_cfg dl_s0 (dl_history 75)) (IP4 3232235521) = None /\
+  ref_run dl_cfg (ref_init dl_cfg 0) (dl_history 75) (IP4 3232235521) = None /\
+  option_map a_online (abs (run dl_cfg dl_s0 (dl_history 75)) (IP4 3232235522)) = Some true.
+Proof.
+  split; [vm_compute; reflexivity|]. split; [vm_compute; reflexivity|]. split; [vm_compute; reflexivity|].
+  split; [vm_compute; discriminate|]. split; [vm_compute; reflexivity|]. split; vm_compute; reflexivity.
+Qed.
